@@ -28,6 +28,17 @@ from pv import c14_real as real
 from pv import c14_universes as unis
 
 PROP = "C14"
+_T0 = [0.0]
+# processes / concurrent TLC runs (development: PV_C14_PAR=4)
+PAR = int(os.environ.get("PV_C14_PAR", "0")) or core.NCPU
+
+
+def _log(msg):
+    if os.environ.get("PV_C14_VERBOSE"):
+        import time
+        if not _T0[0]:
+            _T0[0] = time.time()
+        print(f"[C14 +{time.time() - _T0[0]:6.1f}s] {msg}", flush=True)
 BATCH = 150000          # tuples per TLC trace-validation run
 
 
@@ -150,7 +161,22 @@ def _m_remove_equal(case, clause, _detail, _f):
     return False
 
 
+def _m_iadd(case, clause, _detail, _f):
+    # node.children += [x]: list.__iadd__ is inherited unvalidated, then the
+    # children setter pops everything - including x, whose parent link is
+    # deleted although its real parent still lists it
+    name, p, _, c, _ = _op(case)
+    if not (name == "iadd" and case["outcome"] == "returned"
+            and clause == "ParentChildAgree"):
+        return False
+    pre, post = case["pre"], case["post"]
+    q = pre["parent"][c - 1]
+    return (q not in (0, p) and post["parent"][c - 1] == 0
+            and c in post["children"][q - 1] and post["children"][p - 1] == [])
+
+
 MATCHERS = {
+    "iadd": _m_iadd,
     "cycle": _m_cycle,
     "negative_index": _m_negative_index,
     "insert_unclamped": _m_insert_unclamped,
@@ -182,6 +208,8 @@ def _dump(args):
             f"PSyIRTree.tla ({uni['name']}) does not satisfy its own invariants "
             f"or failed: {res.invariant_violated or res.error or res.out[-1500:]}")
     trans = res.printed("TR")
+    _log(f"dump {uni['name']}: {res.distinct} states, {len(trans)} transitions, "
+         f"TLC wall {res.wall:.1f}s")
     return uni, res, trans
 
 
@@ -189,7 +217,7 @@ def _generate(args):
     tmp, uni = args
     path = _write_universe(tmp, dict(uni, name="gen-" + uni["name"]))
     res = core.run_tlc("PSyIRTree.tla", "PSyIRTree_gen.cfg",
-                       env={"PV_UNIVERSE": path}, workers=2, check=False,
+                       env={"PV_UNIVERSE": path}, workers=1, check=False,
                        heap="2g", timeout=3000)
     if res.invariant_violated or res.error or not res.ok:
         raise core.MachineryError(
@@ -200,6 +228,7 @@ def _generate(args):
     if len(hists) != expect:
         raise core.MachineryError(
             f"generator ({uni['name']}): {len(hists)} histories, expected {expect}")
+    _log(f"generator {uni['name']}: {len(hists)} histories, TLC wall {res.wall:.1f}s")
     return uni, res, hists
 
 
@@ -277,13 +306,13 @@ def _validate(tmp, universes_kinds, records, corrupt=None):
         path, n = run
         res = core.run_tlc("Trace_PSyIRTree.tla", "Trace_PSyIRTree.cfg",
                            env={"PV_CASES": path}, timeout=3000,
-                           workers=max(2, core.NCPU // max(1, min(len(runs), 4))))
+                           workers=max(1, PAR // max(1, min(len(runs), 4))))
         if res.distinct != 2 * n:
             raise core.MachineryError(
                 f"C14 trace validation did not consume every tuple: "
                 f"{res.distinct} states, expected {2 * n}")
         return res
-    with ThreadPoolExecutor(max_workers=4) as ex:
+    with ThreadPoolExecutor(max_workers=min(4, PAR)) as ex:
         results = list(ex.map(one, runs))
     for res in results:
         states += res.distinct
@@ -359,9 +388,10 @@ def run(tier, corrupt=None):
         only = os.environ["PV_C14_ONLY"].split(",")
         ulist = [u for u in ulist if u["name"] in only]
         hlist = [u for u in hlist if u["name"] in only]
+    _log("start")
     try:
         # 1. the model: check + dump transitions; generate long histories
-        with ThreadPoolExecutor(max_workers=core.NCPU) as ex:
+        with ThreadPoolExecutor(max_workers=PAR) as ex:
             fut_d = [ex.submit(_dump, (tmp, u)) for u in ulist]
             fut_g = [ex.submit(_generate, (tmp, u)) for u in hlist]
             dumps = [f.result() for f in fut_d]
@@ -389,7 +419,9 @@ def run(tier, corrupt=None):
                     f"{uni['name']}: dump names {nstates} states, TLC found "
                     f"{res.distinct}")
             jobs_all += [(u, uni["name"], j) for j in jobs]
-        results = core.pool_map(real.run_group, [j for _, _, j in jobs_all])
+        _log(f"replaying {len(jobs_all)} groups")
+        results = core.pool_map(real.run_group, [j for _, _, j in jobs_all], procs=PAR)
+        _log("replayed")
         for (u, uname, job), recs in zip(jobs_all, results):
             for rec in recs:
                 if rec[3] < 0:
@@ -413,7 +445,8 @@ def run(tier, corrupt=None):
             for h in hists:
                 hjobs.append((u, uni["name"], (uni["kinds"], h[0][2],
                                                [st[0] for st in h[1:]])))
-        hres = core.pool_map(real.run_history, [j for _, _, j in hjobs])
+        hres = core.pool_map(real.run_history, [j for _, _, j in hjobs], procs=PAR)
+        _log(f"replayed {len(hjobs)} histories")
         hist_ranges = []
         for (u, uname, job), recs in zip(hjobs, hres):
             lo = len(records)
@@ -430,6 +463,7 @@ def run(tier, corrupt=None):
 
         # 2. TLC decides every recorded tuple
         verdicts, diverged, st, gen = _validate(tmp, kinds_table, records)
+        _log(f"validated {len(records)} tuples: {len(verdicts)} verdicts")
         cov["states"] += st
         cov["transitions"] += gen
         cov["traces_validated_against_impl"] = len(records)
